@@ -4,6 +4,7 @@ import MocModel.Drv.Prom
 import MocModel.Drv.Http
 import MocModel.Drv.Cache
 import MocModel.Drv.Handlers
+import MocModel.Drv.Conc
 open Moc.Drv
 
 def handlers : List (String × Handler) := [
@@ -13,7 +14,8 @@ def handlers : List (String × Handler) := [
   ("C19", PromD.handler),
   ("C20", HttpD.handler),
   ("cache", CacheD.handler),
-  ("C16", HandlersD.handler)
+  ("C16", HandlersD.handler),
+  ("C15", ConcD.handler)
 ]
 
 def main (args : List String) : IO UInt32 := do
